@@ -56,6 +56,10 @@ static pt_state_t cmd_ab_fn(console_t *c)
 	PT_YIELD();
 	PT_YIELD();
 	capture(c, 1);
+	/* like the library's own udelay/pulse commands it then keeps state in the scratch area (the documented
+	 * use: "commands must parse their command line before storing state in the scratch buffers") */
+	c->scratch.u32[0] = 0x41424344; c->scratch.u32[1] = 0x45464748; c->scratch.u32[5] = 0x61626364;
+	PT_YIELD();
 	PT_END();
 }
 static const console_cmd_t cmd_a = CONSOLE_CMD_VAR_INIT("a", cmd_a_fn);
